@@ -40,9 +40,10 @@ def rawOf (q : Point) : RawPoint := { id := q.id, name := q.name, pass := q.pass
 /-- a point written back, as the write it is -/
 def asWrite (q : Point) : Op := .write q.db q.rp [rawOf q]
 
-/-- The documented point of a batch task's loopback node: measurement = the NAME OF THE BATCH. -/
+/-- The documented point of a batch task's loopback node: measurement = the node's (`.measurement('m')`: "The name of the
+measurement. If not specified uses the name of the incoming data"), i.e. the name of the batch when none is given — as on stream edges. -/
 def docBatchWrite (L : Loop) (bname : String) (r : RawPoint) : Point :=
-  { id := r.id, db := L.db, rp := L.rp, name := bname, pass := r.pass,
+  { id := r.id, db := L.db, rp := L.rp, name := if L.name = "" then bname else L.name, pass := r.pass,
     pl := { time := r.pl.time, tags := L.setTags r.pl.tags, fields := r.pl.fields } }
 
 /-- Who wrote: an external writer / an operation that writes nothing (`none`), or a loopback node. Batch tasks' nodes are
